@@ -9,6 +9,7 @@ import (
 	"os"
 	"runtime"
 	"sort"
+	"strconv"
 	"strings"
 	"sync"
 	"sync/atomic"
@@ -76,13 +77,14 @@ type Event struct {
 
 // Strategy selects how the next step is chosen.
 type Strategy struct {
-	Kind     string `json:"kind"`               // rand | weighted | pct | fifo
-	Seed     uint64 `json:"seed"`               // strategy-local seed
-	D        int    `json:"d,omitempty"`        // pct: number of priority change points
-	Horizon  int    `json:"horizon,omitempty"`  // pct: steps over which change points are spread
-	StallPer int    `json:"stall_per,omitempty"` // per-10000 chance per step of a clock stall while work is runnable
-	MaxW     int    `json:"max_w,omitempty"`    // weighted: weights drawn in 1..MaxW per key
-	Starve   string `json:"starve,omitempty"`   // substring: matching candidates run only when nothing else can
+	Kind          string `json:"kind"`                      // rand | weighted | pct | fifo
+	Seed          uint64 `json:"seed"`                      // strategy-local seed
+	D             int    `json:"d,omitempty"`               // pct: number of priority change points
+	Horizon       int    `json:"horizon,omitempty"`         // pct: steps over which change points are spread
+	StallPer      int    `json:"stall_per,omitempty"`       // per-10000 chance per step of a clock stall while work is runnable
+	MaxW          int    `json:"max_w,omitempty"`           // weighted: weights drawn in 1..MaxW per key
+	Starve        string `json:"starve,omitempty"`          // substring: matching candidates run only when nothing else can
+	StallBudgetMs int    `json:"stall_budget_ms,omitempty"` // total simulated time that drawn stalls may consume (default 20 s)
 }
 
 // Outcome of Sched.Run.
@@ -123,6 +125,7 @@ type Sched struct {
 	Steps     int
 	Ticks     int
 	Stalls    int
+	StallTime time.Duration
 	LogHash   uint64
 	Log       []string
 	KeepLog   int
@@ -147,6 +150,7 @@ type Sched struct {
 	IdleQuantum  time.Duration
 
 	SiteHits map[string]int
+	lastSite map[string]string
 	QStates  map[uint64]struct{}
 
 	lastStepWall atomic.Int64
@@ -177,7 +181,10 @@ func New(seed uint64, strat Strategy) *Sched {
 		prio: map[string]uint64{}, changeAt: map[int]int{}, weight: map[string]int{},
 		KeepLog: 600, dead: map[string]bool{}, exits: map[string]int{}, crashCnt: map[string]int{},
 		CrashSeen: map[string]int{}, IdleQuantum: 100 * time.Millisecond,
-		SiteHits: map[string]int{}, QStates: map[uint64]struct{}{},
+		SiteHits: map[string]int{}, QStates: map[uint64]struct{}{}, lastSite: map[string]string{},
+	}
+	if v, err := strconv.Atoi(os.Getenv("VERIF_KEEPLOG")); err == nil && v > 0 {
+		s.KeepLog = v
 	}
 	if strat.Kind == "pct" {
 		h := strat.Horizon
@@ -189,7 +196,6 @@ func New(seed uint64, strat Strategy) *Sched {
 			s.changeAt[r.Intn(h)] = i + 1
 		}
 	}
-	s.lastStepWall.Store(time.Now().UnixNano())
 	return s
 }
 
@@ -293,8 +299,6 @@ func (s *Sched) park(site, kind string, try func() bool) {
 		return
 	}
 	p.name = s.nameOfLocked(site)
-	s.parkSeq++
-	p.seq = s.parkSeq
 	s.parked = append(s.parked, p)
 	s.mu.Unlock()
 	s.Kick()
@@ -325,8 +329,6 @@ func Acquire(site string, try func() bool, lock func()) {
 		s.mu.Lock()
 		if s.active {
 			p.name = s.nameOfLocked(site)
-			s.parkSeq++
-			p.seq = s.parkSeq
 			s.parked = append(s.parked, p)
 			s.mu.Unlock()
 			s.Kick()
@@ -404,7 +406,7 @@ func (s *Sched) record(kind, key, site string, n int) {
 	if len(s.Log) < s.KeepLog {
 		s.Log = append(s.Log, fmt.Sprintf("%d %s %s @%s /%d t=%v", s.Steps, kind, key, site, n, time.Since(s.t0)))
 	}
-	s.lastStepWall.Store(time.Now().UnixNano())
+	s.lastStepWall.Add(1)
 }
 
 var _ = sort.Strings
@@ -550,6 +552,14 @@ func (s *Sched) Run(stop func() bool, deadline time.Time, idleCut time.Duration)
 			}
 		}
 		sort.Slice(cs, func(i, j int) bool { return cs[i].key < cs[j].key })
+		// arrival numbers are handed out here, in name order, so that they do not
+		// depend on which of several simultaneously woken goroutines parked first
+		for i := range cs {
+			if g := cs[i].g; g != nil && g.seq == 0 {
+				s.parkSeq++
+				g.seq = s.parkSeq
+			}
+		}
 		if len(s.QStates) < 200000 {
 			var q uint64
 			for _, c := range cs {
@@ -584,6 +594,9 @@ func (s *Sched) Run(stop func() bool, deadline time.Time, idleCut time.Duration)
 			}
 		} else {
 			stall := n > 0 && s.Strat.StallPer > 0 && s.Pick.Intn(10000) < s.Strat.StallPer
+			if stall && s.StallTime >= s.stallBudget() {
+				stall = false
+			}
 			if !stall {
 				live := make([]cand, len(cs))
 				copy(live, cs)
@@ -632,6 +645,7 @@ func (s *Sched) Run(stop func() bool, deadline time.Time, idleCut time.Duration)
 			}
 			if kind == "Tstall" {
 				s.Stalls++
+				s.StallTime += q
 			}
 			s.Ticks++
 			s.record(kind, "", "", n)
@@ -648,7 +662,7 @@ func (s *Sched) Run(stop func() bool, deadline time.Time, idleCut time.Duration)
 			t.Stop()
 			continue
 		}
-		setSelectSeed(Mix(s.seed, "sel")+uint64(s.Steps)*0x9E3779B97F4A7C15 | 1)
+		setSelectSeed(Mix(s.seed, "sel") + uint64(s.Steps)*0x9E3779B97F4A7C15 | 1)
 		if chosen.g != nil {
 			p := chosen.g
 			// crash plan: is this the crash point?
@@ -694,6 +708,7 @@ func (s *Sched) Run(stop func() bool, deadline time.Time, idleCut time.Duration)
 				s.lastProgress = now
 			}
 			s.SiteHits[p.site]++
+			s.lastSite[p.name] = p.site
 			s.record("G", p.name, p.site, n)
 			p.try = nil
 			s.mu.Unlock()
@@ -751,5 +766,54 @@ func (s *Sched) Blocked() []string {
 // Since returns simulated time since Run started.
 func (s *Sched) Since() time.Duration { return s.Elapsed }
 
-// LastStepWall is read by the real-time watchdog.
-func (s *Sched) LastStepWall() int64 { return s.lastStepWall.Load() }
+// StepCounter is sampled by the real-time watchdog (time.Now is the fake clock inside a bubble).
+func (s *Sched) StepCounter() int64 { return s.lastStepWall.Load() }
+
+// Waiting lists, for every named goroutine that still exists, the last yield
+// point it passed ("name@site"); goroutines currently parked are included.
+// Used for hang reports: a goroutine durably blocked in a channel operation or
+// simulated I/O is found at the yield that precedes that operation.
+func (s *Sched) Waiting() []string {
+	buf := make([]byte, 1<<20)
+	n := runtime.Stack(buf, true)
+	alive := map[uint64]bool{}
+	for _, line := range strings.Split(string(buf[:n]), "\n") {
+		if strings.HasPrefix(line, "goroutine ") {
+			f := strings.Fields(line)
+			if len(f) > 1 {
+				var id uint64
+				fmt.Sscanf(f[1], "%d", &id)
+				alive[id] = true
+			}
+		}
+	}
+	s.mu.Lock()
+	defer s.mu.Unlock()
+	parkedAt := map[string]string{}
+	for _, p := range s.parked {
+		parkedAt[p.name] = p.site
+	}
+	var out []string
+	for id, name := range s.names {
+		if !alive[id] {
+			continue
+		}
+		site := s.lastSite[name]
+		if ps, ok := parkedAt[name]; ok {
+			site = ps
+		}
+		if site == "" {
+			site = "start"
+		}
+		out = append(out, name+"@"+site)
+	}
+	sort.Strings(out)
+	return out
+}
+
+func (s *Sched) stallBudget() time.Duration {
+	if s.Strat.StallBudgetMs > 0 {
+		return time.Duration(s.Strat.StallBudgetMs) * time.Millisecond
+	}
+	return 20 * time.Second
+}
